@@ -5,46 +5,65 @@ namespace CC.Properties.C16PQueue
 open CC CC.Spec
 open CC.Spec.PQ (Op Out)
 
-/-- a step whose status is neither OK nor `CC_ERR_ALLOC` (pop/top on an empty queue,
-`CC_ERR_MAX_CAPACITY` from push) leaves the whole physical state and the ledger record unchanged -/
-theorem error_is_inert {cmp : Nat → Nat → Int} (tp : TotalPreorder cmp) (grow : Nat → Nat) (hg : PQueue.GrowOk grow)
-    (q : PQueue) (op : Op) (m : Mem) (h : PQueue.Inv' cmp q) (hl : 2 ≤ m.live)
-    (hst : (PQueue.step cmp grow q op m).1.st ≠ .ok) (hst' : (PQueue.step cmp grow q op m).1.st ≠ .errAlloc) :
-    (PQueue.step cmp grow q op m).2.1 = q ∧ (PQueue.step cmp grow q op m).2.2 = m := by
+/-- a step whose status is not OK — pop/top on an empty queue, `CC_ERR_MAX_CAPACITY` and also
+`CC_ERR_ALLOC` from push — leaves the whole physical state unchanged; unless an allocator refusal
+fired (`CC_ERR_ALLOC`) the ledger record is unchanged too -/
+theorem error_is_inert {cmp : Nat → Nat → Int} (tp : TotalPreorder cmp) (grow : Nat → Nat)
+    (q : PQueue) (op : Op) (m : Mem) (h : PQueue.Inv' cmp q) (hl : 2 ≤ m.liveT q.triple)
+    (hst : (PQueue.step cmp grow q op m).1.st ≠ .ok) :
+    (PQueue.step cmp grow q op m).2.1 = q ∧
+    ((PQueue.step cmp grow q op m).1.st ≠ .errAlloc → (PQueue.step cmp grow q op m).2.2 = m) := by
   cases op with
   | push x =>
-    simp only [PQueue.step] at hst hst' ⊢
-    rcases PQueue.push_counts tp grow hg q x m h (by omega) with ⟨k0, k1, _⟩ | ⟨kok, _⟩ | ⟨kerr, _⟩
-    · exact ⟨C10.push_refused_inert tp grow hg q x m h hl hst, k1⟩
-    · exact (hst kok).elim
-    · exact (hst' kerr).elim
+    simp only [PQueue.step] at hst ⊢
+    refine ⟨C10.push_refused_inert tp grow q x m h hl hst, fun hne => ?_⟩
+    -- not OK and not ALLOC: the capacity limit; nothing was asked of the allocator
+    have hs := (C10.push_status_iff tp grow q x m h hl)
+    have hsc := h.1.1
+    rw [PQueue.push_eq]
+    by_cases hfull : q.size ≥ q.capacity
+    · simp only [hfull, if_true]
+      have hroom : ¬ q.size < q.capacity := by omega
+      by_cases hb : PQueue.newCapacity grow q > Gen.CC_MAX_ELEMENTS / PQueue.ptrSize
+      · have he : PQueue.expandCapacity grow q m = (.errMaxCapacity, q, m) := by
+          unfold PQueue.expandCapacity; dsimp only
+          split
+          · rfl
+          · simp [hb]
+        rw [he]; rfl
+      · exfalso
+        cases ha : (m.allocT q.triple).1
+        · exact hne (hs.2.2.2 ⟨by omega, by omega, ha⟩)
+        · exact hst (hs.1.2 (Or.inr ⟨by omega, ha⟩))
+    · exact (hst (hs.1.2 (Or.inl (by omega)))).elim
   | top =>
     simp only [PQueue.step] at hst ⊢
     rcases PQueue.top_spec tp q m h with ⟨_, e⟩ | ⟨x, e, _⟩
-    · rw [e]; exact ⟨by first | rfl | trivial, by first | rfl | trivial⟩
+    · rw [e]; exact ⟨by first | rfl | trivial, fun _ => by first | rfl | trivial⟩
     · rw [e] at hst; exact (hst rfl).elim
   | pop =>
     simp only [PQueue.step] at hst ⊢
     rcases PQueue.pop_spec tp q m h with ⟨_, e⟩ | ⟨x, e, _⟩
-    · rw [e]; exact ⟨by first | rfl | trivial, by first | rfl | trivial⟩
+    · rw [e]; exact ⟨by first | rfl | trivial, fun _ => by first | rfl | trivial⟩
     · exact (hst e).elim
 
 /-- an empty queue rejects `top` and `pop` with `CC_ERR_OUT_OF_RANGE`, no out-value, nothing changes -/
 theorem empty_rejected (cmp : Nat → Nat → Int) (q : PQueue) (m : Mem) (h : q.size = 0) :
-    q.top m = (.errOutOfRange, none, m) ∧ PQueue.pop cmp q m = (.errOutOfRange, none, q, m) := by
-  simp [PQueue.top, PQueue.pop, h]
+    q.top m = (.errOutOfRange, none, m) ∧ PQueue.pop cmp q m = (.errOutOfRange, none, q, m) ∧
+    PQueue.popOut cmp q false m = (.errOutOfRange, none, q, m) := by
+  simp [PQueue.top, PQueue.pop, PQueue.popOut, h]
 
 /-- … and only an empty queue does -/
 theorem nonempty_accepted (cmp : Nat → Nat → Int) (q : PQueue) (m : Mem) (h : q.size ≠ 0) :
     (q.top m).1 = .ok ∧ (PQueue.pop cmp q m).1 = .ok := by
-  simp [PQueue.top, PQueue.pop, h]
+  simp [PQueue.top, PQueue.pop, PQueue.popOut, h]
 
 /-- an invalid capacity — 0, one for which `exp_factor >= CC_MAX_ELEMENTS / capacity`, or one whose
 byte size `capacity * sizeof(void*)` would wrap — is rejected for every value in the `size_t`
 domain; the constructor then yields no object and asks the allocator for nothing -/
-theorem invalid_capacity_rejected (cap : Nat) (exGe : Nat → Bool) (m : Mem)
+theorem invalid_capacity_rejected (cap : Nat) (exGe : Nat → Bool) (t : Triple) (m : Mem)
     (h : cap = 0 ∨ exGe (Gen.CC_MAX_ELEMENTS / cap) = true ∨ cap > Gen.CC_MAX_ELEMENTS / PQueue.ptrSize) :
-    PQueue.new cap exGe m = (.errInvalidCapacity, none, m) := by
+    PQueue.new cap exGe t m = (.errInvalidCapacity, none, m) := by
   unfold PQueue.new
   by_cases h1 : (cap = 0 || exGe (Gen.CC_MAX_ELEMENTS / cap)) = true
   · simp [h1]
@@ -58,12 +77,12 @@ theorem invalid_capacity_rejected (cap : Nat) (exGe : Nat → Bool) (m : Mem)
 
 /-- conversely `CC_ERR_INVALID_CAPACITY` is reported only for such capacities, and never with an
 object or an allocation -/
-theorem invalid_capacity_only (cap : Nat) (exGe : Nat → Bool) (m : Mem)
-    (h : (PQueue.new cap exGe m).1 = .errInvalidCapacity) :
+theorem invalid_capacity_only (cap : Nat) (exGe : Nat → Bool) (t : Triple) (m : Mem)
+    (h : (PQueue.new cap exGe t m).1 = .errInvalidCapacity) :
     (cap = 0 ∨ exGe (Gen.CC_MAX_ELEMENTS / cap) = true ∨ cap > Gen.CC_MAX_ELEMENTS / PQueue.ptrSize) ∧
-    (PQueue.new cap exGe m).2.1 = none ∧ (PQueue.new cap exGe m).2.2 = m := by
+    (PQueue.new cap exGe t m).2.1 = none ∧ (PQueue.new cap exGe t m).2.2 = m := by
   by_cases hc : cap = 0 ∨ exGe (Gen.CC_MAX_ELEMENTS / cap) = true ∨ cap > Gen.CC_MAX_ELEMENTS / PQueue.ptrSize
-  · rw [invalid_capacity_rejected cap exGe m hc]; exact ⟨hc, rfl, rfl⟩
+  · rw [invalid_capacity_rejected cap exGe t m hc]; exact ⟨hc, rfl, rfl⟩
   · exfalso
     have h1 : ¬ ((cap = 0 || exGe (Gen.CC_MAX_ELEMENTS / cap)) = true) := by
       intro e; apply hc
@@ -73,6 +92,11 @@ theorem invalid_capacity_only (cap : Nat) (exGe : Nat → Bool) (m : Mem)
     have h2 : ¬ cap > Gen.CC_MAX_ELEMENTS / PQueue.ptrSize := fun e => hc (Or.inr (Or.inr e))
     unfold PQueue.new at h
     simp only [h1, h2, if_false] at h
-    cases h3 : m.alloc.1 <;> cases h4 : m.alloc.2.alloc.1 <;> simp [h3, h4] at h
+    cases h3 : (m.allocT t).1 <;> cases h4 : ((m.allocT t).2.allocT t).1 <;> simp [h3, h4] at h
+
+/-! Non-vacuity: an empty queue satisfying the invariant; the limit capacities -/
+example : PQueue.Inv' (keyCmp id) { size := 0, capacity := 1, buf := [0] } ∧
+    (2 ^ 61 : Nat) > Gen.CC_MAX_ELEMENTS / PQueue.ptrSize ∧ (2 ^ 61 - 1 : Nat) ≤ Gen.CC_MAX_ELEMENTS / PQueue.ptrSize := by
+  refine ⟨⟨by decide, by decide⟩, by decide, by decide⟩
 
 end CC.Properties.C16PQueue
